@@ -238,7 +238,11 @@ LOOP_VARS = ["i", "j", "k", "concurrent_idx", "do_count", "while_c"]
 ARR_NAMES = ["arr", "vec", "mat", "Fld", "buf2", "grid", "tab_x"]
 FUN_NAMES = ["foo", "bar", "f_1", "Gfun", "hfun", "my_func"]
 SUB_NAMES = ["sub1", "do_it", "S_two", "worker", "init_x", "step"]
-MOD_NAMES = ["mod_a", "Mod_B", "utils_m", "kinds_m", "phys"]
+MOD_NAMES = ["mod_a", "Mod_B", "utils_m", "kinds_m", "phys", "only_defs"]
+# local / remote names of USE entries (never referenced by the generated code, so that a
+# rename does not change the meaning of anything else); some begin with a keyword
+USE_LOCALS = ["loc_n", "only_n", "wp2", "My_Kind", "operator_x", "total"]
+USE_REMOTES = ["rem_n", "only_count", "dp_k", "sp_k", "only_total", "assignment_k"]
 TYPE_NAMES = ["t_pt", "Vec3", "my_type", "node_t"]
 CONS_NAMES = ["outer", "inner", "L1", "blk_a", "sel", "w1", "lp", "chk"]
 COMP_NAMES = ["xc", "yc", "next_p", "len_", "dat"]
@@ -689,7 +693,20 @@ class G:
             kinds = [k for k in kinds if k in self.features] or ["if"]
         k = self.ch(kinds)
         self.hit("c:" + k)
-        return getattr(self, "c_" + k)(depth, in_loop)
+        b = getattr(self, "c_" + k)(depth, in_loop)
+        if isinstance(b, Blk) and b.cons not in ("labeldo", "nonblockdo"):
+            # any statement may carry a label: opener (in front of the construct name), END, ELSE …
+            if b.open is not None and b.open.label is None and self.p(0.07):
+                b.open.label = self.new_label()
+                self.hit("label:opener" + ("+name" if b.open.cname else ""))
+            if b.close is not None and b.close.label is None and self.p(0.04):
+                b.close.label = self.new_label()
+                self.hit("label:end")
+            for y in b.body:
+                if isinstance(y, St) and y.role == "mid" and y.label is None and self.p(0.04):
+                    y.label = self.new_label()
+                    self.hit("label:mid")
+        return b
 
     def c_if(self, depth, in_loop):
         cn = self.maybe_cname()
@@ -1028,7 +1045,8 @@ class G:
         r = self.rng.random()
         if r < 0.10:
             self.hit("d:parameter")
-            return St([self.kw("parameter"), "(", "pi", "=", "3.14159", ",", "two", "=", "2", ")"])
+            return St([self.kw("parameter"), "(", "pi", "=", "3.14159", ",", "two", "=", "2"] +
+                      ([",", "eps", "=", "1.0e-6", "*", "two"] if self.p(0.4) else []) + [")"])
         if r < 0.18:
             self.hit("d:dimension")
             return St([self.kw("dimension")] + (["::"] if self.p(0.3) else []) + [self.ch(ARR_NAMES), "(", "10", ",", "20", ")", ",", "wk", "(", "0", ":", "n", ")"])
@@ -1037,7 +1055,14 @@ class G:
             v = self.ch([["x", "/", "1.0", "/"], ["arr", "/", "10", "*", "0", "/"],
                          ["a", ",", "b", "/", "1", ",", "2", "/"],
                          ["(", "vec", "(", "i", ")", ",", "i", "=", "1", ",", "3", ")", "/", "1", ",", "2", ",", "3", "/"],
-                         ["str", "/", "'ab'", "/", ",", "k2", "/", "Z'1F'", "/"]])
+                         ["str", "/", "'ab'", "/", ",", "k2", "/", "Z'1F'", "/"],
+                         # implied-DO with a step; nested implied-DO; repeat factor that is a named constant
+                         ["(", "vec", "(", "i", ")", ",", "i", "=", "1", ",", "19", ",", "2", ")", "/", "10", "*", "0.5", "/"],
+                         ["(", "(", "mat", "(", "i", ",", "j", ")", ",", "i", "=", "1", ",", "2", ")", ",", "j", "=", "1", ",", "6", ",", "3", ")",
+                          "/", "4", "*", "0", "/"],
+                         ["(", "vec", "(", "i", ")", ",", "tab_x", "(", "i", ")", ",", "i", "=", "n", ",", "1", ",", "-", "1", ")", "/", "two", "*", "1.0", "/"],
+                         ["x", ",", "y", "/", "2", "*", "0.0", "/", "zz", "/", ".true.", "/"],
+                         ["a", "/", "-", "1.5e0", "/", ",", "b", "/", "+", "2", "/"]])
             return St([self.kw("data")] + v)
         if r < 0.31:
             self.hit("d:common")
@@ -1045,10 +1070,12 @@ class G:
                       if self.p(0.8) else [self.kw("common"), "a", ",", "b"])
         if r < 0.35:
             self.hit("d:equivalence")
-            return St([self.kw("equivalence"), "(", "a", ",", "b", ")"] + ([",", "(", "x", ",", "vec", "(", "1", ")", ")"] if self.p(0.4) else []))
+            return St([self.kw("equivalence"), "(", "a", ",", "b"] + ([",", "tmp"] if self.p(0.3) else []) + [")"] +
+                      ([",", "(", "x", ",", "vec", "(", "1", ")", ")"] if self.p(0.4) else []))
         if r < 0.40:
             self.hit("d:namelist")
-            return St([self.kw("namelist"), "/", "nml1", "/", "a", ",", "b"] + (["/", "nml2", "/", "x"] if self.p(0.3) else []))
+            return St([self.kw("namelist"), "/", "nml1", "/", "a", ",", "b"] +
+                      (([","] if self.p(0.5) else []) + ["/", "nml2", "/", "x"] + ([",", "vec"] if self.p(0.5) else []) if self.p(0.4) else []))
         if r < 0.46:
             self.hit("d:save")
             return St([self.kw("save")] + self.ch([[], ["::", "a", ",", "b"], ["a"], ["/", "blk1", "/"]]))
@@ -1069,7 +1096,8 @@ class G:
             return St(t + [self.ch(VAR_NAMES)] + ([",", self.ch(ARR_NAMES)] if self.p(0.4) else []))
         if r < 0.66:
             self.hit("d:intentstmt")
-            return St([self.kw("intent"), "(", self.kw("in"), ")", "::", "a"])
+            return St([self.kw("intent"), "("] + self.ch([[self.kw("in")], [self.kw("out")], [self.kw("inout")], [self.kw("in"), self.kw("out")]]) +
+                      [")"] + (["::"] if self.p(0.7) else []) + ["a"] + ([",", "b"] if self.p(0.4) else []))
         if r < 0.72:
             self.hit("d:format")
             return self.format_stmt()
@@ -1212,17 +1240,52 @@ class G:
         else:
             t += [m]
         opt = self.rng.random()
-        if opt < 0.3:
+        if opt < 0.2:
             t += [",", self.kw("only"), ":", "wp", ",", "i_def"]
-        elif opt < 0.4:
+        elif opt < 0.27:
             t += [",", self.kw("only"), ":", "loc_n", "=>", "rem_n"]
-        elif opt < 0.5:
+        elif opt < 0.34:
             t += [",", "loc_n", "=>", "rem_n"]
-        elif opt < 0.55:
+        elif opt < 0.38:
             t += [",", self.kw("only"), ":", self.kw("operator"), "(", ".myop.", ")"]
-        elif opt < 0.6:
+        elif opt < 0.42:
             t += [",", self.kw("only"), ":"]
+        elif opt < 0.62 and m is not None:
+            # general only-list: names, renames, generic specs in any order
+            self.hit("d:use-only-list")
+            t += [",", self.kw("only"), ":"]
+            for i in range(self.ri(1, 4)):
+                if i:
+                    t.append(",")
+                t += self.use_entry(only=True)
+        elif opt < 0.72 and m is not None:
+            # general rename-list (no ONLY): renames of names and of defined operators
+            self.hit("d:use-rename-list")
+            for i in range(self.ri(1, 3)):
+                t.append(",")
+                t += self.use_entry(only=False)
         return St(t), m
+
+    def use_entry(self, only):
+        """one entry of an only-list / rename-list"""
+        r = self.rng.random()
+        loc = self.ch(USE_LOCALS)
+        rem = self.ch(USE_REMOTES)
+        if not only:
+            if r < 0.8:
+                return [loc, "=>", rem]
+            return [self.kw("operator"), "(", ".lop.", ")", "=>", self.kw("operator"), "(", ".rop.", ")"]
+        if r < 0.35:
+            return [rem]
+        if r < 0.6:
+            return [loc, "=>", rem]
+        if r < 0.75:
+            return [self.kw("operator"), "(", self.ch([".myop.", "+", "==", "*", ".cross.", "//"]), ")"]
+        if r < 0.85:
+            return [self.kw("assignment"), "(", "=", ")"]
+        if r < 0.92:
+            return [self.kw("operator"), "(", ".lop.", ")", "=>", self.kw("operator"), "(", ".rop.", ")"]
+        return [self.ch(["gen_if", "solve"])]
 
     def spec_part(self, depth, dummy_args=(), in_module=False, in_interface=False):
         body = []
@@ -1341,6 +1404,12 @@ class G:
             self.hit("u:internal")
         cl = St(self.end_kw("program", nm) if self.p(0.85) else [self.kw("end")], "close", "program")
         self.hit("u:program")
+        if self.p(0.15):
+            # main program without PROGRAM statement (fparser2: Main_Program0)
+            op = None
+            cl = St(self.ch([[self.kw("end")], [self.kw("end"), self.kw("program")]]), "close", "program")
+            nm = "fparser2:main_program"
+            self.hit("u:program-headless")
         b = Blk("program", op, body, cl, scope=nm)
         b.decls = decls
         b.uses = uses
